@@ -118,6 +118,8 @@ fn main() -> Result<(), anyhow::Error> {
                     break;
                 }
             }
+            // A coordinate has at most 4 dimensions: ignore any further columns
+            args.truncate(4);
             let n = args.len();
 
             // Empty line
